@@ -15,8 +15,8 @@ import RV.Proofs.CacheLiveRelease
   decrease with every receive from the channel (`selItem` of the idle applier, a drain iteration
   of `Clear`) resp. with the applier's `close(marker)`; they are bounded by `|buf| + |sendq| + 2`;
   at `0` the client is released.
-Weak fairness itself is not formalised: the theorems are the ranking lemmas from which
-"every call returns under weak fairness" follows by the standard argument.
+Fair infinite executions and the termination theorem built on these ranking lemmas are in
+`CacheFair*.lean` / `RV/Props/C08Fair.lean`.
 -/
 namespace RV.Cache
 open Gen.Cache
@@ -51,7 +51,7 @@ def rankN (n : Nat) : CPc → Nat
 /-- own steps left until the call returns, in state `s` -/
 def rankC (s : State) (pc : CPc) : Nat := rankN (s.buf.length + s.sendq.length) pc
 
-theorem own_rank {n : Nat} {pc pc' : CPc} (h : Own pc pc') (hwf : pc.wf = true)
+theorem own_rank {n : Nat} {pc pc' : CPc} (h : OwnTr pc pc') (hwf : pc.wf = true)
     (hnd : ∀ c, pc ≠ .clrDrain c) : rankN n pc' < rankN n pc := by
   have h256 : numShards.toNat = 256 := by decide
   cases h
